@@ -34,6 +34,12 @@ Det(D, rr) ==
      (D.mode # "str" \/ U8Step(0, D.u8[x]) # U8Bad) =>     \* a str buffer ends on a char boundary
        LET r2 == RStep(D, rr, x) IN ~Viable(D, r2) /\ Winner(D, RepSet(D, r2)) = me
 
+(* the same without the restriction to bytes that may start a character: used for "was the item   *)
+(* already determined one byte ago", a position that may lie inside a character                    *)
+DetAny(D, rr) ==
+  LET me == Winner(D, RepSet(D, REoi(D, rr))) IN
+  \A x \in 1..D.nB : LET r2 == RStep(D, rr, x) IN ~Viable(D, r2) /\ Winner(D, RepSet(D, r2)) = me
+
 (* One reference attempt from offset p (p < Len(src)).  partial: src is only a prefix.            *)
 (* Result: [k |-> "tok"|"err"|"none", leaf, start, end, weak]                                      *)
 (*   weak = the decision was taken at the end of a prefix buffer (look-around definitions may     *)
@@ -54,7 +60,7 @@ Scan(D, src, partial, p, i, rr, best, detPrev) ==
            m  == Winner(D, RepSet(D, r2))
            b2 == IF m # 0 THEN [leaf |-> m, end |-> i] ELSE best
        IN IF Viable(D, r2)
-          THEN Scan(D, src, partial, p, i + 1, TLCEval(r2), TLCEval(b2), TLCEval(i > p /\ Det(D, rr)))
+          THEN Scan(D, src, partial, p, i + 1, TLCEval(r2), TLCEval(b2), TLCEval(i > p /\ DetAny(D, rr)))
           ELSE IF b2.leaf = 0
                THEN [k |-> "err", leaf |-> 0, start |-> p, end |-> RoundUp(D, src, Max2(i, p + 1)), weak |-> FALSE]
                ELSE [k |-> "tok", leaf |-> b2.leaf, start |-> p, end |-> b2.end, weak |-> FALSE]
